@@ -684,6 +684,26 @@ pub fn run(rep: &mut Report) {
     let utc: Vec<i128> = epochs_in(Some(TimeScale::UTC)).iter().step_by(3).map(|(_, c)| *c).chain([super::c08::expected_count(days1900(2017, 1, 7), 86_390 * NS_S, TimeScale::UTC), super::c08::expected_count(days1900(2024, 2, 29), 3661 * NS_S + 5, TimeScale::UTC)]).collect();
     let nu = utc.len() as u64;
     sweep(rep, "c19.parse_back", pf.len() as u64 * nu, |i, out| j_parse_back(&pf[(i / nu) as usize], utc[(i % nu) as usize], out));
+    // sub-second variety: the lattice above carries few nanosecond patterns; every format family with %f is driven over
+    // a spread of 1 500 (time of day, nanosecond) pairs on three days - a float intermediate in one parser branch shows
+    // for a few percent of such values only
+    let mut spread: Vec<i128> = vec![];
+    for (y, m, d) in [(2021i64, 1i64, 11i64), (2024, 2, 29), (2016, 12, 31)] {
+        for k in 0..500i128 {
+            let tod = (k * 997 * 7 + 2117) % 86_400;
+            let ns = match k % 10 {
+                0 => 73_000_000,
+                1 => 1,
+                2 => 999_999_999,
+                _ => (k * k * 7_919 + k * 123_456_789) % 1_000_000_000,
+            };
+            spread.push(super::c08::expected_count(days1900(y, m, d), tod * NS_S + ns, TimeScale::UTC));
+        }
+    }
+    let sf = ["%Y-%j %H:%M:%S.%f", "%Y-%jT%H:%M:%S.%f", "%Y-%m-%dT%H:%M:%S.%f", "%d %B %Y %H:%M:%S.%f", "%a, %d %b %Y %H:%M:%S.%f", "%H:%M:%S.%f %j %Y", "%Y-%m-%dT%H:%M:%S.%f%z", "%f %S %M %H %d %m %Y"];
+    let nsp = spread.len() as u64;
+    rep.bound("parse_back_subsecond_spread", nsp);
+    sweep(rep, "c19.parse_back[subsec]", sf.len() as u64 * nsp, |i, out| j_parse_back(sf[(i / nsp) as usize], spread[(i % nsp) as usize], out));
     let ps = parse_back_structures();
     rep.bound("parse_back_structures", ps.len() as u64);
     sweep(rep, "c19.parse_back[structures]", ps.len() as u64 * nu, |i, out| j_parse_back(&ps[(i / nu) as usize], utc[(i % nu) as usize], out));
